@@ -1,4 +1,6 @@
 import SkoolVerif.Proofs.CmioVsSimRun
+import SkoolVerif.Proofs.CVsPyExamples
+import SkoolVerif.Proofs.CVsPyInterrupt
 /-!
 C06 — all four simulator implementations execute every program identically.
 
@@ -10,8 +12,19 @@ C06 — all four simulator implementations execute every program identically.
   HALT and the port-access sequence exactly as one step of the plain simulator does (T and MEMPTR
   aside, and bits 5 and 3 of F after BIT n,(HL), which the contended simulator derives from MEMPTR) —
   for every closure, any arguments, any state, under the frame layout `CfgOk` both machines have.
-* The C handler bodies and run loops are not translated: their tie is the per-slot and
-  program-level differential execution in `harness/props/c06.py`.
+* The C handler bodies ARE translated (`translate/c2lean.py`, both builds of `c/csimulator.c`, on every
+  run: `Gen/CHandlers.lean`, `Gen/CCmioHandlers.lean`) and proved equal, as functions on the whole state, to
+  the Python closures of the same name — for every well-formed argument tuple the C dispatch tables can
+  denote (`cArgsOk`, which every row satisfies) and every in-range state whose clock and frame
+  configuration fit the C data types (`CRep`): `c_handlers_eq_python`, lifted through the model of
+  `GET_OPCODE_FUNC` to one instruction (`c_step_eq_python`) and to runs of any length
+  (`c_run_eq_python`), and the same for the `-DCONTENTION` build against `CMIOSimulator`.
+  One genuine difference was found by the proof: `OUT` on 128K memory pages in C even when no tracer is
+  attached, in Python only through the tracer (`C06_c_out_full` is refuted; the theorems carry `OutOk`).
+* `accept_interrupt` is translated too and proved equal to the hand model of the Python methods that C10/C20 use.
+* Still differential only (`harness/props/c06.py`): the C run loops around the handlers (`run`, `exec_frame`,
+  `trace`: when they call `accept_interrupt`, stop conditions), the C lookup tables' `init_*` code (every entry the
+  handlers index is read back through the real C handlers and compared with simtables.py each run), `dec_a`.
 -/
 namespace C06
 open Z80 DispatchEq CmioVsSim
@@ -65,5 +78,95 @@ theorem frame_layout_ok : CfgOk (Contend.cfgFor false) ∧ CfgOk (Contend.cfgFor
 -- non-vacuity: a concrete slot where the C and Python rows are (the same) non-trivial closure call
 example : CSim.tbl_MAIN[0x09]! = .add_rr .R1 11 1 6 7 2 3 := by decide +kernel
 example : Sim.tbl_DDCB[0x06]! = .f_xy .RLC 8 9 (-1) := by decide +kernel
+
+
+/-! ### the C handler bodies (translated on every run) against the Python closures -/
+
+/-- Plain build: every C handler computes exactly the state (all registers, memory, PC, T, IFF, IM, HALT, MEMPTR,
+port logs) the Python closure computes, for any well-formed argument tuple a C dispatch row can denote and any
+in-range state representable in the C data types.  `OutOk`: see `C06_c_out_full`. -/
+theorem c_handlers_eq_python {μ : Type} [MemLike μ] [CellMem μ] (cfg : Cfg) (i : Sim.Instr)
+    (hwf : Sim.instrWf i = true) (hc : CSimH.cArgsOk i = true) (s : St μ) (h : RInv s) (hrep : CRep cfg s)
+    (hout : CSimH.OutOk cfg s) : CSimH.execLeaf cfg i s = Sim.execLeaf cfg i s :=
+  CSimH.c_execLeaf_eq cfg i hwf hc s h hrep hout
+
+/-- `-DCONTENTION` build against `CMIOSimulator`: identical states, delays and MEMPTR included -/
+theorem c_cmio_handlers_eq_python {μ : Type} [MemLike μ] [CellMem μ] [PageStable μ] (cfg : Cfg) (i : Cmio.Instr)
+    (hwf : Cmio.instrWf i = true) (hc : CCmioH.cArgsOk i = true) (s : St μ) (h : RInv s) (hrep : CRep cfg s)
+    (hout : CCmioH.OutOk cfg s) : CCmioH.execLeaf cfg i s = Cmio.execLeaf cfg i s :=
+  CCmioH.c_execLeaf_eq cfg i hwf hc s h hrep hout
+
+/-- every row of the seven dispatch tables is an argument tuple the C handlers are written for: the hypothesis
+`cArgsOk` of the two theorems above never excludes an instruction the simulators can execute -/
+theorem c_dispatch_rows_args_ok (t : Sim.OpTbl) (i : Int) (t' : Cmio.OpTbl) :
+    CSimH.cArgsOk (t.get i) = true ∧ CCmioH.cArgsOk (t'.get i) = true :=
+  ⟨CSimH.get_cargs t i, CCmioH.get_cargs t' i⟩
+
+/-- the C macro `GET_OPCODE_FUNC` over the C tables selects, for every opcode sequence, the row Python's
+`opcodes[memory[pc]]` / `prefix` / `prefix2` chain selects -/
+theorem c_fetch_eq_python {μ : Type} [MemLike μ] [CellMem μ] (s : St μ) (hm : MemOk s.mem) :
+    CSimH.leafOf s = Sim.leafOf s := CSimH.leafOf_eq s hm
+
+/-- one instruction of the plain C simulator = one instruction of `Simulator`, from any in-range state -/
+theorem c_step_eq_python {μ : Type} [MemLike μ] [CellMem μ] (cfg : Cfg) (s : St μ) (h : RInv s) (hrep : CRep cfg s)
+    (hout : CSimH.OutOk cfg s) : CSimH.step cfg s = Sim.step cfg s := CSimH.step_eq_py cfg s h hrep hout
+
+/-- one instruction of the contended C simulator = one instruction of `CMIOSimulator` -/
+theorem c_cmio_step_eq_python {μ : Type} [MemLike μ] [CellMem μ] [PageStable μ] (cfg : Cfg) (s : St μ) (h : RInv s)
+    (hrep : CRep cfg s) (hout : CCmioH.OutOk cfg s) : CCmioH.step cfg s = Cmio.step cfg s :=
+  CCmioH.step_eq_py cfg s h hrep hout
+
+/-- any number of instructions (no interrupt accepted in between): the plain C run ends in exactly the state of the
+Python run, provided the clock stays below 2^63 (an instruction adds at most 23 T-states) -/
+theorem c_run_eq_python {μ : Type} [MemLike μ] [CellMem μ] (cfg : Cfg) (hcfg : CSimH.CfgRep cfg)
+    (hout : CSimH.OutOkAll μ cfg) (n : Nat) (s : St μ) (h : RInv s)
+    (ht : s.t + n * Tshift.maxDur < 9223372036854775808) : CSimH.runN cfg n s = Sim.runN cfg n s :=
+  CSimH.runN_eq_py cfg hcfg hout n s h ht
+
+/-- the same for the contended pair (an instruction adds at most 143 T-states) -/
+theorem c_cmio_run_eq_python {μ : Type} [MemLike μ] [CellMem μ] [PageStable μ] (cfg : Cfg) (hcfg : CSimH.CfgRep cfg)
+    (hout : CSimH.OutOkAll μ cfg) (n : Nat) (s : St μ) (h : RInv s)
+    (ht : s.t + n * Tshift.maxDurCmio < 9223372036854775808) : CCmioH.runN cfg n s = Cmio.runN cfg n s :=
+  CCmioH.runN_eq_py cfg hcfg hout n s h ht
+
+/-- The C function `accept_interrupt` (both builds, translated like the handlers) computes exactly what the hand model
+`TraceLoop.acceptInterrupt` of `Simulator.accept_interrupt` / `CMIOSimulator.accept_interrupt` computes — the model
+C10 and C20 use for the trace / RZX loops (that model is tied to the Python methods by correspondence, not by
+translation): same state, and return value 1 exactly when the interrupt is accepted. -/
+theorem c_accept_interrupt_eq_model {μ : Type} [MemLike μ] [CellMem μ] (cfg : Cfg) (prevPc : Int)
+    (hp : 0 ≤ prevPc ∧ prevPc < 65536) (s : St μ) (h : RInv s) (hrep : CRep cfg s) :
+    CSimH.accept_interrupt cfg prevPc s =
+      ((TraceLoop.acceptInterrupt false s prevPc).1, if (TraceLoop.acceptInterrupt false s prevPc).2 = true then 1 else 0) ∧
+    CCmioH.accept_interrupt cfg prevPc s =
+      ((TraceLoop.acceptInterrupt true s prevPc).1, if (TraceLoop.acceptInterrupt true s prevPc).2 = true then 1 else 0) :=
+  ⟨CVsPyInt.plain cfg prevPc hp s h hrep, CVsPyInt.contended cfg prevPc hp s h hrep⟩
+
+/-- The full statement for `OUT (n),A` without the side condition `OutOk` ... -/
+def C06_c_out_full : Prop :=
+  ∀ (cfg : Cfg) (s : St Mem128), RInv s → CRep cfg s → CSimH.out_a cfg s = Sim.out_a cfg s
+
+/-- ... is false: on 128K memory with no tracer attached the C handler pages (the `OUT` macro calls `out7ffd()`
+itself), the Python closure does nothing (paging is left to `PagingTracer.write_port`).  Witness: all registers 0,
+0x7FFD value 1, port 0x0000, value 0 (`Proofs/CVsPyExamples.lean`); replayed on the real classes by
+`harness/props/c06.py` (key `c-pages-128k-without-tracer`).  Every tool attaches a paging tracer to a 128K
+simulator, so the difference is only reachable through the classes' API. -/
+theorem c_out_full_false : ¬ C06_c_out_full := by
+  intro h
+  have e := h {} CVsPyEx.st128 CVsPyEx.st128_inv CVsPyEx.st128_rep
+  have w := CVsPyEx.out_a_pages_in_c
+  rw [e] at w
+  omega
+
+/-- with a tracer attached, or on 48K memory, `OutOk` holds and the three OUT handlers agree as well -/
+theorem outOk_of_tracer_or_48k {μ : Type} [MemLike μ] (cfg : Cfg) (s : St μ) :
+    (cfg.out_tracer = true → CSimH.OutOk cfg s) ∧ (∀ s48 : St Mem48, CSimH.OutOk cfg s48) :=
+  ⟨fun h => Or.inl h, fun _ => Or.inr (fun _ _ => rfl)⟩
+
+-- the hypotheses are satisfiable: a concrete in-range 128K state, the default configuration
+example : RInv CVsPyEx.st128 ∧ CRep {} CVsPyEx.st128 ∧ CSimH.CfgRep {} := ⟨CVsPyEx.st128_inv, CVsPyEx.st128_rep, CVsPyEx.cfg0_rep⟩
+example : CSimH.OutOkAll Mem48 {} := Or.inr (fun _ _ _ => rfl)
+example : CSimH.cArgsOk (.add_rr .R1 11 1 6 7 2 3) = true ∧ CSimH.cArgsOk (.ld_rr_nn .R1 10 4 13 12) = false := by decide
+-- a concrete C step: NOP at PC 0 of the all-zero 128K state
+example : (CSimH.step {} CVsPyEx.st128).pc = 1 ∧ (CSimH.step {} CVsPyEx.st128).t = 4 := by decide +kernel
 
 end C06
